@@ -55,3 +55,16 @@ Definition check_broker (off : Z) (iv : Z) (tss : list Z) (groups : list (Z * li
                                                  forallb (fun ts => ts <? fst h) (snd g)) groups) groups &&
              forallb (fun ts => Nat.eqb (countz ts delivered) (countz ts tss)) tss in
   ((if ok then 0%nat else 1%nat), (if orc then 0%nat else 1%nat)).
+
+(* ---- the families a query range selects (tsdb/segment.go, interval_segment.go GetDataFamilies): [existing] = start times
+   of the families the shard holds, [lo, hi] the inclusive range, [got] the start times returned: exactly the existing
+   families whose own range [start, end] meets [lo, hi] ---- *)
+Fixpoint subsetz (a b : list Z) : bool := match a with [] => true | x :: a' => memz x b && subsetz a' b end.
+Definition check_range_families (off iv : Z) (existing : list Z) (lo hi : Z) (got : list Z) : nat * nat :=
+  let t := interval_type iv in
+  let want := filter (fun f => (f <=? hi) && (lo <=? family_end off t f)) existing in
+  ((if subsetz want got && subsetz got want && Nat.eqb (length got) (length want) then 0%nat else 1%nat),
+   (* the property on the observations alone: every existing family that contains lo or hi is returned, nothing outside *)
+   (if forallb (fun f => negb ((f <=? hi) && (hi <=? family_end off t f)) || memz f got) existing &&
+       forallb (fun f => negb ((f <=? lo) && (lo <=? family_end off t f)) || memz f got) existing &&
+       forallb (fun f => (f <=? hi) && (lo <=? family_end off t f)) got then 0%nat else 1%nat)).
